@@ -32,6 +32,8 @@ def generate_all():
                 k = src.masked.index("{", a)
                 e = src.match_close(k)
                 text = src.text[a:e + 1]
+                for pat in r.get("strip_lines", []):
+                    text = "\n".join(l for l in text.split("\n") if not l.strip().startswith(pat))
                 lines = (src.line_of(a), src.line_of(e))
                 vis = "" if r.get("keep_vis") else "pub "
                 code = (f"// GENERATED on every run by /verif/lib/kx.py — verbatim lines {lines[0]}-{lines[1]} of {r['file']} (item `{r['item']}`)\n"
